@@ -13,7 +13,7 @@ from pbt.core import call, workdir
 
 PROP = "C11"
 TECHNIQUE = "Hypothesis-generated forecast files (reference encoder) -> load -> lookups at constructed corner/centre/near-far-corner points compared with the file rows (round trip); scale / scale_to_test_date histories checked against 'original x last factor'"
-RULE = ("one case = well-formed CSEP gridded ASCII file over a generated lattice (anchor, spacing, extent, holes, permuted cell order, 1..6 "
+RULE = ("(refused requests - explicit-bin griddings on the forecast's region, a lookup below the magnitude grid between two equal lookups - are made before / between the judged lookups, unjudged) one case = well-formed CSEP gridded ASCII file over a generated lattice (anchor, spacing, extent, holes, permuted cell order, 1..6 "
         "contiguous magnitude bins per cell, flags, lon/lat or lat/lon column order with swap_latlon, rates by repr) or a quadtree ASCII / CSV "
         "file over a generated prefix-free quadkey set; lookups at every row's lower corner, box centre, far corner minus 2 slack, and for "
         "each magnitude bin its lower edge, centre and (last bin) far above; plus a history of 0..5 scale / scale_to_test_date calls interleaved with read-only requests (sum, marginals, data, target_event_rates with and without scale=True). "
